@@ -42,7 +42,7 @@ Statements, in continuation-passing style (the code after an `if` / `try` is tra
                                   after the try statement follows BODY and every handler that falls through
   try: BODY finally: FIN          finally BODY FIN                 (last statement; BODY ends in return / raise)
   with FileBackups() as b: BODY   gen_bk_init ;;; gen_bk_enter ;;; finally BODY gen_bk_exit   (same conditions)
-  the nine statements that compute the backup slot from `_next_backup_index` (table SLOT_BLOCK): nothing; the two
+  the five statements that compute the backup slot from `_next_backup_index` (table SLOT_BLOCK): nothing; the two
   names they define have kind `slot` (the slot of the file named by the parameter `filename`)
 A statement that reads the world (an attribute of self, os.path.isfile/isdir/exists) is preceded by
 `w<i>_ <- get ;;` and reads that world.
@@ -373,6 +373,7 @@ class MethodTr:
         self.loop = None                               # innermost loop being translated: dict(again, carried, free)
         self.loops = {}
         self.no_return = False                         # inside `finally:` / a loop body
+        self.aliased = set()                           # list attributes a local has been bound to
 
     def fail(self, msg, node):
         self.ct.fail(msg, node)
@@ -960,6 +961,8 @@ class MethodTr:
             self.fail("assignment of a %s" % t.kind, s)
         if isinstance(v, ast.Name) and env[v.id].kind in ("paths", "pathset", "emptylist", "bkentries"):
             self.fail("alias of the list %r" % v.id, s)
+        if self_attr(v) in self.ci["attrs"] and t.kind in ELEM:
+            self.aliased.add(self_attr(v))                     # the local is a snapshot: the list must not be mutated in place
         env2[x] = T(cname(x), t.kind)
         return "%slet %s := %s in\n%s" % (pre, cname(x), t.txt, k(env2))
 
@@ -970,6 +973,9 @@ class MethodTr:
     def stmt_call(self, s, env, k):
         e = s.value
         key = ast.unparse(e)
+        for a in self.aliased:
+            if key.startswith("self.%s." % a):
+                self.fail("in-place change of self.%s, of which a local is an alias" % a, s)
         if key in self.ci["stmt_calls"]:
             return self.bindm("", self.ci["stmt_calls"][key], None, env, lambda: k(env))
         if self.has_mcall(e, env):
